@@ -417,6 +417,9 @@ struct Driver {
         std::vector<int> others; for (int h : fr) if (std::find(L.begin(), L.end(), (long)h) == L.end()) others.push_back(h);
         int what = (int)rng.below(7);
         size_t j = rng.below(6), i = rng.below(6);
+        // directed: the far side of the very first face (halfface 1) replaced by a stray halfface -- the list the
+        // re-ordering path used to complete with an invalid handle
+        { auto it = std::find(L.begin(), L.end(), 1L); if (it != L.end() && !others.empty() && rng.chance(2, 3)) { what = 0; j = (size_t)(it - L.begin()); } }
         if (what == 0 && !others.empty()) B[j] = rng.pick(others);                       // stray halfface
         else if (what == 1) { int o = (int)L[j] ^ 1; if (hf_in_live_cell(o)) return; B[j] = o; }     // one face seen from inside
         else if (what == 2) { if (i == j) return; B[j] = B[i]; }                          // doubled
@@ -476,10 +479,10 @@ struct Driver {
             if (L.empty()) return;
         }
         int variant = (int)rng.below(100);
-        if (variant < 25) invalid_attempt(L);
+        if (variant < 35) { int n = 1 + (int)rng.below(3); for (int t = 0; t < n; ++t) invalid_attempt(L); }
         // the faces may have been renumbered by nothing here (invalid attempts are rejected): L still valid
         for (long x : L) if (!liveHF((int)x) || hf_in_live_cell((int)x)) return;
-        if (variant < 55) { std::vector<long> p = L; rng.shuffle(p); add_cell_op(p, true, false); }
+        if (variant < 65) { std::vector<long> p = L; rng.shuffle(p); add_cell_op(p, true, false); }
         else add_cell_op(L, rng.chance(2, 3), false);
     }
     void add_hex_V(const Hex& h) {
